@@ -756,8 +756,11 @@ pub fn equals(val_a: &Val, val_b: &Val) -> Result<bool> {
 			if a.len() != b.len() {
 				return Ok(false);
 			}
+			// Counted against the stack limit: values that contain themselves must end in an error
+			let _depth = crate::stack::check_depth()?;
 			for (a, b) in a.iter().zip(b.iter()) {
-				if !equals(&a?, &b?)? {
+				let (a, b) = (a?, b?);
+				if !crate::ensure_sufficient_stack(|| equals(&a, &b))? {
 					return Ok(false);
 				}
 			}
@@ -778,11 +781,13 @@ pub fn equals(val_a: &Val, val_b: &Val) -> Result<bool> {
 				) {
 				return Ok(false);
 			}
+			let _depth = crate::stack::check_depth()?;
 			for field in fields {
-				if !equals(
-					&a.get(field.clone())?.expect("field exists"),
-					&b.get(field)?.expect("field exists"),
-				)? {
+				let (a, b) = (
+					a.get(field.clone())?.expect("field exists"),
+					b.get(field)?.expect("field exists"),
+				);
+				if !crate::ensure_sufficient_stack(|| equals(&a, &b))? {
 					return Ok(false);
 				}
 			}
